@@ -1180,9 +1180,14 @@ func TestVerifC12(t *testing.T) {
 		if strings.Contains(ps, ":") {
 			local = &net.TCPAddr{IP: net.ParseIP("2001:db8::ffff"), Port: 443}
 		}
-		size := []int{0, 1, 2, 15, 16, 17, 100, 1000, 2047, 2048, 3000}[r.Intn(11)]
-		if r.Intn(3) == 0 {
-			size = r.Intn(3001)
+		size := []int{0, 1, 2, 15, 16, 17, 100, 255}[r.Intn(8)]
+		if r.Intn(5) == 0 { // the large ones are expensive to evaluate inside Coq: one case in five
+			size = []int{1000, 2047, 2048, 3000, r.Intn(3001)}[r.Intn(5)]
+		}
+		if vThorough() && r.Intn(25) == 0 {
+			// beyond the bufio size of proxyprotocol.Conn (4096): exercises Connection.Wrap with a
+			// partly consumed prefetch buffer (defect 5 of C01, repaired by 8e3ce5b)
+			size = []int{4096, 5000, 9000}[r.Intn(3)]
 		}
 		c := vC12Case{allow: allow, remote: remote, local: local, hdr: &h, hbytes: h.encode(), payload: vC12Payload(r, size), splitAll: i%16 == 0}
 		if r.Intn(8) == 0 { // damaged header
